@@ -2596,14 +2596,27 @@ def _registry_adds(func, attr):
     """(added expression, node) for every `<x>._dsl.<attr> |= e` / `.add(e)` / `.update(e)` in func"""
     out = []
 
-    def one(e):       # `|= {o}` / `.update([o])` add the element o, like `.add(o)`
-        return e.elts[0] if isinstance(e, (ast.Set, ast.List, ast.Tuple)) and len(e.elts) == 1 else e
+    def parts(e):     # what reaches the registry: operands of a union, elements of a display (`|= {o}` adds o like `.add(o)`)
+        if isinstance(e, ast.BinOp) and isinstance(e.op, ast.BitOr):
+            return parts(e.left) + parts(e.right)
+        if _is_call(e, attr='union') and not e.keywords:
+            return parts(e.func.value) + [p_ for a in e.args for p_ in parts(a)]
+        if isinstance(e, (ast.Set, ast.List, ast.Tuple)) and e.elts and not any(isinstance(x, ast.Starred) for x in e.elts):
+            return list(e.elts)
+        return [e]
     for n in ast.walk(func):
         if isinstance(n, ast.AugAssign) and isinstance(n.op, ast.BitOr) and isinstance(n.target, ast.Attribute) and n.target.attr == attr:
-            out.append((one(n.value), n))
-        elif _is_call(n, None, nargs=1) and isinstance(n.func, ast.Attribute) and n.func.attr in ('add', 'update') and \
-                isinstance(n.func.value, ast.Attribute) and n.func.value.attr == attr:
-            out.append((one(n.args[0]), n))
+            out.extend((p_, n) for p_ in parts(n.value))
+        elif isinstance(n, ast.Call) and not n.keywords and n.args and isinstance(n.func, ast.Attribute) and \
+                n.func.attr in ('add', 'update') and isinstance(n.func.value, ast.Attribute) and n.func.value.attr == attr and \
+                (n.func.attr == 'update' or len(n.args) == 1):
+            out.extend((p_, n) for a in n.args for p_ in parts(a))
+        elif isinstance(n, ast.Assign) and len(n.targets) == 1 and isinstance(n.targets[0], ast.Attribute) and n.targets[0].attr == attr \
+                and isinstance(n.value, ast.BinOp) and isinstance(n.value.op, ast.BitOr):
+            # reg = reg | a | b
+            ps = parts(n.value)
+            if ps and norm(ps[0]) == norm(n.targets[0]):
+                out.extend((p_, n) for p_ in ps[1:])
     return out
 
 
@@ -3221,6 +3234,10 @@ EQUIV = [
     _m('value-loop-over-zip', VCD, "      for i, (signal, symbol) in enumerate( net_details ):\n", '      for i, (net, symbol) in enumerate( zip( trimmed_value_nets, net_symbol_mapping ) ):\n        signal = net[0]\n'),
     _m('openloop-edge-list-copied', OPENLOOP, "    ff = SimpleTickPass.gen_tick_function( ffs_no_method )",
        "    edge_funcs = ffs_no_method[::]\n    ff = SimpleTickPass.gen_tick_function( edge_funcs )"),
+    _m('named-object-registrations-merged', COMPONENT,
+       "    top._dsl.all_named_objects |= added_components\n    top._dsl.all_named_objects |= added_signals\n    top._dsl.all_named_objects |= added_method_ports\n",
+       "    top._dsl.all_named_objects |= added_components | added_signals | added_method_ports\n"),
+    _m('signal-registrations-by-update', COMPONENT, "    top._dsl.all_signals       |= added_signals\n", "    top._dsl.all_signals.update( added_signals )\n"),
     _m('dump-guard-flipped', PREP, "    if top.has_metadata( VcdGenerationPass.vcd_func ):\n      ret.append( top.get_metadata( VcdGenerationPass.vcd_func ) )\n",
        "    if not top.has_metadata( VcdGenerationPass.vcd_func ):\n      pass\n    else:\n      ret.append( top.get_metadata( VcdGenerationPass.vcd_func ) )\n"),
     _m('vcd-str-conditional-expression', BITS,
